@@ -161,6 +161,65 @@ Proof.
   rewrite Hl, En. reflexivity.
 Qed.
 
+(** C20 for the inherited copy / hash / log instructions: the bytes copied, hashed or logged are bounded by the cost charged *)
+Lemma words_cover n : n < two64 -> n <= 32 * to_word_size n.
+Proof.
+  intro H. unfold to_word_size. rewrite two64_val in *.
+  destruct (18446744073709551616 - 1 - 31 <? n) eqn:E; lia.
+Qed.
+
+Theorem copied_bytes_bounded_by_cost op s st g :
+  (op = 0x37 \/ op = 0x39 \/ op = 0x3e \/ op = 0x5e) -> step_cost op s st = Some g ->
+  back s 2 < two64 /\ 3 * back s 2 <= 32 * g.
+Proof.
+  intros Hop. unfold step_cost. destruct (rounded_size op s) as [msize|]; [|discriminate].
+  destruct (memory_gas_cost64 st msize) as [[fee l]| |]; try discriminate.
+  assert (E1 : ((op =? 0x51) || (op =? 0x52) || (op =? 0x53)) = false) by (destruct Hop as [->|[->|[->| ->]]]; reflexivity).
+  assert (E2 : ((op =? 0xf3) || (op =? 0xfd)) = false) by (destruct Hop as [->|[->|[->| ->]]]; reflexivity).
+  assert (E3 : (op =? 0x20) = false) by (destruct Hop as [->|[->|[->| ->]]]; reflexivity).
+  assert (E4 : ((op =? 0x37) || (op =? 0x39) || (op =? 0x3e) || (op =? 0x5e)) = true) by (destruct Hop as [->|[->|[->| ->]]]; reflexivity).
+  rewrite E1, E2, E3, E4. change (N.to_nat 2) with 2%nat.
+  destruct (two64 <=? back s 2) eqn:Eb; [discriminate|].
+  unfold safe_mul, safe_add. destruct (to_word_size (back s 2) * 3 <? two64); [|discriminate].
+  destruct (fee + to_word_size (back s 2) * 3 <? two64); [|discriminate].
+  intro H. assert (Hg : g = 3 + (fee + to_word_size (back s 2) * 3)) by congruence. rewrite Hg. clear H Hg.
+  assert (Hlt : back s 2 < two64) by lia. split; [assumption|].
+  pose proof (words_cover (back s 2) Hlt). lia.
+Qed.
+
+Theorem hashed_bytes_bounded_by_cost s st g :
+  step_cost 0x20 s st = Some g -> back s 1 < two64 /\ 6 * back s 1 <= 32 * g.
+Proof.
+  unfold step_cost. destruct (rounded_size 0x20 s) as [msize|]; [|discriminate].
+  destruct (memory_gas_cost64 st msize) as [[fee l]| |]; try discriminate.
+  change ((0x20 =? 0x51) || (0x20 =? 0x52) || (0x20 =? 0x53)) with false. change ((0x20 =? 0xf3) || (0x20 =? 0xfd)) with false.
+  change (0x20 =? 0x20) with true. cbv iota. change (N.to_nat 1) with 1%nat.
+  destruct (two64 <=? back s 1) eqn:Eb; [discriminate|].
+  unfold safe_mul, safe_add. destruct (to_word_size (back s 1) * 6 <? two64); [|discriminate].
+  destruct (fee + to_word_size (back s 1) * 6 <? two64); [|discriminate].
+  intro H. assert (Hg : g = 30 + (fee + to_word_size (back s 1) * 6)) by congruence. rewrite Hg. clear H Hg.
+  assert (Hlt : back s 1 < two64) by lia. split; [assumption|].
+  pose proof (words_cover (back s 1) Hlt). lia.
+Qed.
+
+Theorem logged_bytes_bounded_by_cost op s st g :
+  0xa0 <= op <= 0xa4 -> step_cost op s st = Some g -> 8 * back s 1 <= g /\ 375 * (1 + (op - 0xa0)) <= g.
+Proof.
+  intros Hop. unfold step_cost. destruct (rounded_size op s) as [msize|]; [|discriminate].
+  destruct (memory_gas_cost64 st msize) as [[fee l]| |]; try discriminate.
+  replace ((op =? 0x51) || (op =? 0x52) || (op =? 0x53)) with false by lia.
+  replace ((op =? 0xf3) || (op =? 0xfd)) with false by lia.
+  replace (op =? 0x20) with false by lia.
+  replace ((op =? 0x37) || (op =? 0x39) || (op =? 0x3e) || (op =? 0x5e)) with false by lia.
+  replace ((0xa0 <=? op) && (op <=? 0xa4)) with true by lia.
+  destruct (two64 <=? back s 1) eqn:Eb; [discriminate|].
+  unfold safe_mul, safe_add. destruct (fee + 375 <? two64); [|discriminate].
+  destruct (fee + 375 + (op - 0xa0) * 375 <? two64); [|discriminate].
+  destruct (back s 1 * 8 <? two64); [|discriminate].
+  destruct (fee + 375 + (op - 0xa0) * 375 + back s 1 * 8 <? two64); [|discriminate].
+  intro H. assert (Hg : g = fee + 375 + (op - 0xa0) * 375 + back s 1 * 8) by congruence. rewrite Hg. lia.
+Qed.
+
 Example ex_mem_gas :
   mg_run mg_init [32; 64; 32; 1024; 0; 96] = Some (98, (1024, 98)) /\
   mg_run mg_init [1024] = Some (98, (1024, 98)) /\
